@@ -13,6 +13,8 @@
 (*  C16  MetaType == / cmp / hash agree with the DECLARED identities and   *)
 (*       form a total order; same identity => same definition             *)
 (*  C17  no definition lists a PhantomData member                          *)
+(*  C02  the registry built from the corpus is the faithful image of the  *)
+(*       compile-time graph extracted through MetaType::type_info()       *)
 (*  C11  registering the corpus in another order gives the same registry   *)
 (*       up to a renaming of ids (`Perm` events)                           *)
 (***************************************************************************)
@@ -61,6 +63,8 @@ Next == /\ l <= Len(Rec)
              [] e.ev = "Matrix" -> AcceptMatrix(e) /\ UNCHANGED <<ex, reg>>
              [] e.ev = "Value" -> AcceptValue(e) /\ UNCHANGED <<ex, reg>>
              [] e.ev = "Perm" -> AcceptPerm(e) /\ UNCHANGED <<ex, reg>>
+             [] e.ev = "Faithful" -> (Check = "C02" => FaithfulOK(e.nodes, e.types)) /\ UNCHANGED <<ex, reg>>
+             [] e.ev = "Retain" -> UNCHANGED <<ex, reg>>          \* judged by Trace_Retain (C10)
         /\ l' = l + 1
 Spec == Init /\ [][Next]_vars
 Track == TLCSet(1, l)
